@@ -485,3 +485,42 @@ func reachableBlocks(fn *ssa.Function) map[*ssa.BasicBlock]bool {
 	}
 	return seen
 }
+
+// SameGuardDominates: target runs only on an edge of a branch on some value v,
+// and an earlier branch on the same SSA value, taken the same way, leads into
+// a region from which every path to the later branch passes an instruction
+// satisfying before. Since v is one value, reaching target implies the
+// earlier branch went that way too - so before has executed.
+func SameGuardDominates(fn *ssa.Function, before func(ssa.Instruction) bool, target ssa.Instruction) bool {
+	for _, cd := range CondsAt(target.Block()) {
+		cd = unwrapNot(cd)
+		if cd.If == nil {
+			continue
+		}
+		for _, b := range fn.Blocks {
+			if len(b.Instrs) == 0 || len(b.Succs) != 2 {
+				continue
+			}
+			iff, ok := b.Instrs[len(b.Instrs)-1].(*ssa.If)
+			if !ok || iff == cd.If || !blockDom(b, cd.If.Block()) {
+				continue
+			}
+			c1 := unwrapNot(Cond{iff.Cond, true, iff})
+			if c1.V != cd.V {
+				continue
+			}
+			t := b.Succs[0]
+			if c1.True != cd.True {
+				t = b.Succs[1]
+			}
+			if len(t.Instrs) == 0 {
+				continue
+			}
+			seen := ReachFrom(t.Instrs[0], true, before)
+			if !seen[cd.If] {
+				return true
+			}
+		}
+	}
+	return false
+}
